@@ -243,7 +243,7 @@ def all_parts(ck, tier, rng):
 
 def main(tier, seed):
     return sprops.main_pairs(PID, tier, seed, {91}, "Props.C10",
-                             ["Model/Sim.v", "Oracle/SimCheck.v", "Oracle/SimOracle.v", "Model/Topics.v", "Proofs/TopicsP.v", "Proofs/SimP.v", "Proofs/FlattenP.v", "Model/SimTime.v", "Proofs/NonInterfP.v", "Proofs/FrameP.v", "Proofs/AgreeP.v", "Proofs/NonInterfNestedP.v", "Proofs/NonInterfLoopP.v", "Proofs/SimTimeP.v", "Props/C10.v"],
+                             ["Model/Sim.v", "Oracle/SimCheck.v", "Oracle/SimOracle.v", "Model/Topics.v", "Proofs/TopicsP.v", "Proofs/SimP.v", "Proofs/FlattenP.v", "Model/SimTime.v", "Proofs/NonInterfP.v", "Proofs/FrameP.v", "Proofs/AgreeP.v", "Proofs/NonInterfNestedP.v", "Proofs/NonInterfLoopP.v", "Proofs/SimTimeP.v", "Model/NSim.v", "Proofs/NonInterfScriptP.v", "Props/C10.v"],
                              "non-interference of unconnected parts", "extend", extra_part=all_parts)
 
 
